@@ -88,7 +88,7 @@ def run(ctx):
     ctx.floor('C11.6', nl, 4, 'show_messages calls from list_command')
 
     # ---- C11.2 source in _get_matching ------------------------------------------------------------------------
-    gpaths = paths_of(repo, f_get, unroll=2)
+    gpaths = paths_of(repo, f_get, unroll=3 if ctx.tier == 'thorough' else 2)
     rets = [p for p in gpaths if p.outcome[0] == 'return']
     ctx.floor('C11.2', len(rets), 10, 'returning paths of _get_matching')
     for p in rets:
